@@ -85,10 +85,20 @@ class World(object):
                  'supported_srs': ['EPSG:3857']}
             d = sorted(int(t[1:]) for t in delivers[i])
             if d != list(range(4)):
-                if not d or d != list(range(d[0], d[-1] + 1)):
-                    raise tlc.MachineryError('coverage of a source must be a run of tiles: %r' % (d,))
-                # strictly inside the run of tiles (no edge on a tile border)
-                s['coverage'] = {'bbox': [d[0] * SPAN + 3, -SPAN, (d[-1] + 1) * SPAN - 3, 2 * SPAN], 'srs': 'EPSG:3857'}
+                if not d:
+                    raise tlc.MachineryError('empty coverage')
+                runs, cur = [], [d[0]]
+                for k in d[1:]:
+                    if k == cur[-1] + 1:
+                        cur.append(k)
+                    else:
+                        runs.append(cur)
+                        cur = [k]
+                runs.append(cur)
+                # strictly inside the runs of tiles (no edge on a tile border); several runs: a union, whose bounding box
+                # spans tiles that are not in it
+                boxes = [{'bbox': [r[0] * SPAN + 3, -SPAN, (r[-1] + 1) * SPAN - 3, 2 * SPAN], 'srs': 'EPSG:3857'} for r in runs]
+                s['coverage'] = boxes[0] if len(boxes) == 1 else {'union': boxes}
             if seed_only[i]:
                 s['seed_only'] = True
             sources['s%d' % i] = s
@@ -266,6 +276,9 @@ WORLDS = [
     (2, {1: {'t0', 't1', 't2'}, 2: {'t2', 't3'}}, {1: True, 2: True}),
     (3, {1: {'t0'}, 2: {'t1', 't2'}, 3: ALL}, {1: False, 2: True, 3: True}),
     (3, {1: {'t0', 't1'}, 2: {'t1'}, 3: {'t1', 't2'}}, {1: False, 2: False, 3: False}),
+    # coverages that are not rectangles: the bounding box spans tiles that are not covered
+    (2, {1: {'t0', 't3'}, 2: {'t1', 't3'}}, {1: False, 2: False}),
+    (1, {1: {'t0', 't2', 't3'}}, {1: False}),
 ]
 
 
@@ -390,7 +403,7 @@ def run(ctx):
     ctx.assumptions += ['one level of four tiles, meta size 1x1, WMS sources whose coverage is a run of whole tiles (edges strictly inside '
                         'the tiles), file cache, TMS requests, seed tasks without refresh rule; every source paints its own band, '
                         'so the bands of an image name the sources merged into it']
-    return ctx.finish('model_checking', 'TLC: all histories of requests / seed runs / removals for 8 configurations of 1-3 sources; '
+    return ctx.finish('model_checking', 'TLC: all histories of requests / seed runs / removals for 10 configurations of 1-3 sources; '
                       'behaviours executed on and histories recorded from a real application and the real seed_task')
 
 
